@@ -101,7 +101,7 @@ theorem step_done (w : World) (i : Nat) (h : w.pc i = .done) : step env pol inp 
 theorem step_pc_other (w : World) (i j : Nat) (h : j ≠ i) : (step env pol inp rs w i).pc j = w.pc j := by
   unfold step
   cases hpc : w.pc i with
-  | afterExists dup => cases dup <;> simp [updateAt, h]
+  | afterExists dup => cases dup <;> simp only <;> (try split) <;> simp [updateAt, h]
   | afterTrack => simp only; split <;> (try split) <;> simp [updateAt, h]
   | _ => simp [updateAt, h]
 
@@ -109,7 +109,7 @@ theorem step_covertOf_other (w : World) (i j : Nat) (h : j ≠ i) :
     (step env pol inp rs w i).covertOf j = w.covertOf j := by
   unfold step
   cases hpc : w.pc i with
-  | afterExists dup => cases dup <;> simp
+  | afterExists dup => cases dup <;> simp only <;> (try split) <;> simp
   | afterTrack => simp only; split <;> (try split) <;> simp [updateAt, h]
   | _ => simp
 
@@ -117,18 +117,22 @@ theorem step_covertOf_self (w : World) (i : Nat) (h : w.pc i ≠ .afterTrack) :
     (step env pol inp rs w i).covertOf i = w.covertOf i := by
   unfold step
   cases hpc : w.pc i with
-  | afterExists dup => cases dup <;> simp
+  | afterExists dup => cases dup <;> simp only <;> (try split) <;> simp
   | afterTrack => exact absurd hpc h
   | _ => simp
 
 /-- a worker gets to the validation step only through an accepted check of its own covert string, whose
 output it wrote into its own object -/
 theorem step_pc_beforeRegister (w : World) (i : Nat) (h : (step env pol inp rs w i).pc i = .beforeRegister) :
-    (parseOrResolve env pol (inp.ans i) rs w.cursor).out ≠ "" ∧
+    w.pc i = .afterTrack ∧ (parseOrResolve env pol (inp.ans i) rs w.cursor).out ≠ "" ∧
       (step env pol inp rs w i).covertOf i = (parseOrResolve env pol (inp.ans i) rs w.cursor).out := by
   unfold step at h ⊢
   cases hpc : w.pc i with
-  | afterExists dup => rw [hpc] at h; cases dup <;> simp [updateAt] at h
+  | afterExists dup =>
+    rw [hpc] at h
+    cases dup with
+    | true => simp [updateAt] at h
+    | false => simp only at h; split at h <;> simp [updateAt] at h
   | afterTrack =>
     rw [hpc] at h
     simp only at h ⊢
@@ -142,45 +146,50 @@ theorem step_pc_beforeRegister (w : World) (i : Nat) (h : (step env pol inp rs w
   | beforeRegister => rw [hpc] at h; simp [updateAt] at h
   | done => rw [hpc] at h; simp only at h; rw [hpc] at h; cases h
 
-/-- a valid entry after a step was valid before, or was just validated by this worker with its own
-object as the stored one -/
-theorem step_store_valid (w : World) (i : Nat) (e : Entry) (h : (step env pol inp rs w i).store = some e)
-    (hv : e.valid = true) :
-    w.store = some e ∨ (w.pc i = .beforeRegister ∧ e = ⟨i, true⟩ ∧ (step env pol inp rs w i).pc i = .done) := by
+/-- a worker is past its track step (and not finished) only if that step stored its own object -/
+theorem step_pc_afterTrack (w : World) (i : Nat) (h : (step env pol inp rs w i).pc i = .afterTrack) :
+    w.pc i = .afterExists false ∧ w.store = none ∧ (step env pol inp rs w i).store = some ⟨i, false⟩ := by
   unfold step at h ⊢
   cases hpc : w.pc i with
-  | start => rw [hpc] at h; exact Or.inl h
   | afterExists dup =>
     rw [hpc] at h
     cases dup with
-    | true => exact Or.inl h
+    | true => simp [updateAt] at h
     | false =>
-      simp only at h
+      simp only at h ⊢
       cases hst : w.store with
-      | none => rw [hst] at h; simp only [Option.some.injEq] at h; subst h; cases hv
-      | some e0 => rw [hst] at h; exact Or.inl h
+      | none => simp
+      | some e => rw [hst] at h; simp [updateAt] at h
   | afterTrack =>
     rw [hpc] at h
     simp only at h
     split at h
-    · exact Or.inl h
-    · split at h <;> exact Or.inl h
-  | beforeRegister =>
-    rw [hpc] at h
-    simp only at h ⊢
-    unfold registerStep at h
-    cases hst : w.store with
-    | none =>
-      rw [hst] at h; simp only [Option.some.injEq] at h
-      refine Or.inr ⟨?_, h.symm, ?_⟩ <;> first | trivial | exact hpc | simp [updateAt]
-    | some e0 =>
-      rw [hst] at h
-      cases hv0 : e0.valid with
-      | true => simp only [hv0, if_true] at h; exact Or.inl h
-      | false =>
-        simp only [hv0, Bool.false_eq_true, if_false, Option.some.injEq] at h
-        refine Or.inr ⟨?_, h.symm, ?_⟩ <;> first | trivial | exact hpc | simp [updateAt]
-  | done => rw [hpc] at h; exact Or.inl h
+    · simp [updateAt] at h
+    · split at h <;> simp [updateAt] at h
+  | start => rw [hpc] at h; simp [updateAt] at h
+  | beforeRegister => rw [hpc] at h; simp [updateAt] at h
+  | done => rw [hpc] at h; simp only at h; rw [hpc] at h; cases h
+
+/-- how the registry entry changes in one step -/
+theorem step_store (w : World) (i : Nat) :
+    (step env pol inp rs w i).store = w.store ∨
+    (w.pc i = .afterExists false ∧ w.store = none ∧ (step env pol inp rs w i).store = some ⟨i, false⟩) ∨
+    (w.pc i = .beforeRegister ∧ (step env pol inp rs w i).store = registerStep w.store i ∧
+      (step env pol inp rs w i).pc i = .done) := by
+  unfold step
+  cases hpc : w.pc i with
+  | start => exact Or.inl rfl
+  | afterExists dup =>
+    cases dup with
+    | true => exact Or.inl rfl
+    | false =>
+      simp only
+      cases hst : w.store with
+      | none => exact Or.inr (Or.inl ⟨trivial, rfl, rfl⟩)
+      | some e => exact Or.inl rfl
+  | afterTrack => simp only; split <;> (try split) <;> exact Or.inl rfl
+  | beforeRegister => exact Or.inr (Or.inr ⟨rfl, rfl, by simp [updateAt]⟩)
+  | done => exact Or.inl rfl
 
 /-- a valid entry is never touched again -/
 theorem step_store_keeps_valid (w : World) (i : Nat) (e : Entry) (h : w.store = some e) (hv : e.valid = true) :
@@ -189,7 +198,10 @@ theorem step_store_keeps_valid (w : World) (i : Nat) (e : Entry) (h : w.store = 
   cases hpc : w.pc i with
   | afterExists dup => cases dup <;> simp [h]
   | afterTrack => simp only; split <;> (try split) <;> simp [h]
-  | beforeRegister => simp [registerStep, h, hv]
+  | beforeRegister =>
+    simp only [registerStep, h]
+    cases e with
+    | mk ptr valid => simp only at hv; rw [hv]
   | _ => simp [h]
 
 end steps
